@@ -42,7 +42,9 @@ type sampler struct {
 	n   map[string]int // rotation counters per class
 }
 
-func newSampler(seed int64) *sampler { return &sampler{rnd: rand.New(rand.NewSource(seed)), n: map[string]int{}} }
+func newSampler(seed int64) *sampler {
+	return &sampler{rnd: rand.New(rand.NewSource(seed)), n: map[string]int{}}
+}
 
 func (s *sampler) pick(class string, n int) int {
 	i := s.n[class]
